@@ -701,28 +701,45 @@ class Interp:
             if not pre:
                 return
             idx = sorted({x % len(pre) for x in s['pts']})
-            olds = [pre[i] for i in idx]
-            pts, ops_, base = [], [], [list(row) for row in seqs]
-            newper = []
+            olds = sorted((pre[i] for i in idx), key=lambda r: r.cycle)
+            busy = {q for r in olds for q in r.loc}
+            pts, ops_ = [], []
+            exp = [list(row) for row in seqs]
             for j, r in enumerate(olds):
                 loc = list(r.loc)
+                mode = (s['g'] + j + s.get('perm', 0)) % 4
+                mode = 2 if mode == 3 else mode
+                if mode == 1 and len(loc) > 1:
+                    loc = loc[1:] + loc[:1]
+                elif mode == 2:
+                    # widen onto a qudit no other replaced op of this batch
+                    # touches: the new op may then collide with a neighbour
+                    # in its cycle and make the circuit GROW during the batch
+                    free = [q for q in range(n) if q not in busy]
+                    occupied_here = {q for x in pre if x.cycle == r.cycle
+                                     for q in x.loc}
+                    colliding = [q for q in free if q in occupied_here]
+                    if colliding and (s['g'] + j) % 4 != 3:
+                        free = colliding
+                    if free and len(loc) < 3:
+                        x = free[(s['g'] + j) % len(free)]
+                        busy.add(x)
+                        loc = loc + [x]
                 spec, g, params = self.pick_gate(
                     [c.radixes[q] for q in loc], s['g'] + j, s['p'],
                 )
                 pts.append((r.cycle, r.loc[0]))
                 ops_.append(Operation(g, loc, params))
-                newper.append((r, rec_new(g, loc, params)))
-            exp = [
-                [dict((id(a), b) for a, b in newper).get(id(x), x) for x in row]
-                for row in base
-            ]
+                nr = rec_new(g, loc, params, r.cycle)
+                base = [[x for x in row if x is not r] for row in exp]
+                exp = place_at(base, {q: [nr] for q in loc}, r.cycle)
             order = list(range(len(pts)))
             if s.get('perm', 0) % 2:
                 order = order[::-1]
             pts = [pts[i] for i in order]
             ops_ = [ops_[i] for i in order]
             call = lambda: c.batch_replace(pts, ops_)
-            desc = f'batch_replace({pts})'
+            desc = f'batch_replace({pts}, locs={[list(o.location) for o in ops_]})'
         elif name == 'replace_with_circuit':
             if not pre:
                 return
@@ -1062,6 +1079,13 @@ class Interp:
             # continue with the in-place object, which was mutated
         self.nmut += 1
         self.kinds.add(name)
+        if name == 'batch_replace':
+            if len({pt[0] for pt in pts}) > 1:
+                self.out.label('batch_replace:several-cycles')
+                if c.num_cycles > m:
+                    self.out.label('batch_replace:several-cycles+grew')
+            if c.num_cycles < m:
+                self.out.label('batch_replace:shrank')
         # ---- judge
         post = snapshot(c)
         if c.num_qudits != exp_n:
@@ -1127,6 +1151,7 @@ def _step(name, **kw):
 
 LOC = st.lists(SEL, min_size=3, max_size=3)
 PTS = st.lists(SEL, min_size=1, max_size=5)
+PTS2 = st.lists(SEL, min_size=2, max_size=5, unique=True)
 B = st.integers(0, 1)
 
 STEP_STRATS = {
@@ -1142,20 +1167,20 @@ STEP_STRATS = {
     'pop': _step('pop', pt=SEL, mode=SEL, q=SEL),
     'remove_op': _step('remove_op', pt=SEL),
     'remove_gate': _step('remove_gate', pt=SEL, all=B),
-    'batch_pop': _step('batch_pop', pts=PTS),
+    'batch_pop': _step('batch_pop', pts=PTS2),
     'pop_cycle': _step('pop_cycle', cyc=SEL),
     'replace': _step('replace', pt=SEL, mode=SEL, q=SEL, perm=SEL, loc=LOC,
                      g=SEL, p=P3, neg=B),
     'replace_gate': _step('replace_gate', pt=SEL, mode=SEL, q=SEL, perm=SEL,
                           loc=LOC, g=SEL, p=P3, neg=B),
-    'batch_replace': _step('batch_replace', pts=PTS, g=SEL, p=P3, perm=SEL),
+    'batch_replace': _step('batch_replace', pts=PTS2, g=SEL, p=P3, perm=SEL),
     'replace_with_circuit': _step('replace_with_circuit', pt=SEL, q=SEL,
                                   sub=SUB, as_gate=B, neg=B),
     'fold': _step('fold', mode=SEL, pts=PTS, pt=SEL, k=SEL, loc=LOC),
     'straighten': _step('straighten', mode=SEL, pts=PTS, pt=SEL, k=SEL,
                         loc=LOC),
     'unfold': _step('unfold', pt=SEL, q=SEL),
-    'batch_unfold': _step('batch_unfold', pts=PTS),
+    'batch_unfold': _step('batch_unfold', pts=PTS2),
     'unfold_all': _step('unfold_all'),
     'compress': _step('compress'),
     'copy': _step('copy'),
@@ -1178,10 +1203,10 @@ STEP_STRATS = {
 WEIGHTS = {
     'append': 6, 'append_gate': 4, 'insert': 6, 'insert_gate': 3,
     'append_circuit': 3, 'insert_circuit': 3, 'extend': 1, 'pop': 5,
-    'remove_op': 1, 'remove_gate': 1, 'batch_pop': 2, 'pop_cycle': 2,
-    'replace': 4, 'replace_gate': 2, 'batch_replace': 2,
+    'remove_op': 1, 'remove_gate': 1, 'batch_pop': 3, 'pop_cycle': 2,
+    'replace': 4, 'replace_gate': 2, 'batch_replace': 5,
     'replace_with_circuit': 3, 'fold': 5, 'straighten': 2, 'unfold': 4,
-    'batch_unfold': 2, 'unfold_all': 1, 'compress': 1, 'copy': 1, 'become': 1,
+    'batch_unfold': 3, 'unfold_all': 1, 'compress': 1, 'copy': 1, 'become': 1,
     'clear': 0, 'append_qudit': 1, 'extend_qudits': 1, 'insert_qudit': 2,
     'pop_qudit': 2, 'renumber': 3, 'add': 1, 'iadd': 1, 'mul': 1, 'imul': 1,
     'inverse': 1, 'set_params': 1, 'freeze': 1,
@@ -1197,6 +1222,6 @@ def steps_strategy(exclude=()):
 @st.composite
 def histories(draw, max_steps=30, max_n=5, exclude=()):
     radixes = draw(specs.radix_lists(1, max_n, 512))
-    steps = draw(st.lists(steps_strategy(exclude), min_size=1,
+    steps = draw(st.lists(steps_strategy(exclude), min_size=min(4, max_steps),
                           max_size=max_steps))
     return {'radixes': radixes, 'steps': steps}
